@@ -71,15 +71,18 @@ CHECKS["C15"] = dict(
     note="partial: process-wide at-exit report of low-level allocators not covered yet.",
     technique="Lean 4 proof (induction over histories) + correspondence")
 CHECKS["C01"] = dict(
-    text="Lean theorems: for memory_pool over the unordered free list, after ANY history of node/array allocations, try_ variants and releases "
-         "(any environment incl. upstream failures, any node size, any configuration) live ranges are pairwise disjoint, lie inside the usable "
-         "part of an owned block, and free-list cells (the only memory the allocator writes) are disjoint from them (frame); invariant "
-         "established by the constructor; allocation and release agree on the number of cells of an array. Iteration regions: C07 theorems. "
-         "Other allocator kinds: line-by-line correspondence of every returned address plus overlap / inside-owned / content-pattern oracles "
-         "on the real code in rel/rwdi/dbg.",
-    note="partial: proof covers pool<free list> + iteration regions; ordered/small pools, collections, stacks at correspondence+oracle level. "
-         "Hypothesis n*node_size < 2^64 is necessary (machine-checked counterexample, finding D21).",
-    technique="Lean 4 proof (partition invariant by induction over histories) + correspondence/oracles")
+    text="Lean theorems: for memory_pool over BOTH intrusive free lists - the unordered list (release builds) and the address-ordered xor list "
+         "(array_pool always, node_pool when double-free checking is on) - after ANY history of node/array allocations, try_ variants and "
+         "releases (any environment incl. upstream failures, any node size, any configuration) live ranges are pairwise disjoint, lie inside "
+         "the usable part of an owned block, and free cells (the only memory the allocator writes) are disjoint from them (frame); the ordered "
+         "list stays sorted with an adjacent cursor pair, find_pos finds every pointer the pool handed out from every reachable cursor state, "
+         "valid releases never fail; invariant established by the constructors. memory_stack: placement invariant for all histories with nested "
+         "marker scopes. Iteration regions: C07 theorems. Other allocator kinds (small-node pools, collections): line-by-line correspondence of "
+         "every returned address plus overlap / inside-owned / content-pattern / poison-after-release oracles on the real code in rel/rwdi/dbg.",
+    note="partial: proof covers memory_pool over the unordered and the ordered list, memory_stack over growing/fixed sources, iteration regions; "
+         "small-node pools and collections at correspondence+oracle level. Hypothesis n*node_size < 2^64 is necessary (machine-checked "
+         "counterexample, finding D21). Environment hypotheses: blocks well formed and pairwise disjoint, pool object outside its blocks.",
+    technique="Lean 4 proof (partition invariant over cells, order-independent; ordered-list structural invariant; induction over histories) + correspondence/oracles")
 CHECKS["C04"] = dict(
     text="Lean theorems: capacity counter = number of free nodes for every operation of the unordered list and chunk capacities of the small "
          "list; allocate+release restores the unordered list exactly (arrays: as a permutation, with exactly ceil(n/ns) cells both ways); "
@@ -138,8 +141,9 @@ CHECKS["C11"] = dict(
          "that does not fit yields out_of_fixed_memory with the state unchanged, an exactly fitting one is served; bump never overruns; the "
          "block boundaries never move, so reset() releases exactly sizeof(T)+additional_size in one call. Tied by layout correspondence on "
          "the real joint_ptr/joint_array/clone_joint over an instrumented upstream (offsets, top, release parameters, overflow).",
-    note="partial: containers with joint_allocator are covered by the model's allocate/deallocate histories, not instantiated in the harness; "
-         "clone independence rests on upstream blocks being disjoint.",
+    note="partial: containers with joint_allocator are covered by joint_allocator allocate/deallocate histories in any release order (model "
+         "theorems + `jh` correspondence on the real joint_allocator), not by instantiating std containers; clone independence rests on "
+         "upstream blocks being disjoint.",
     technique="Lean 4 proof (invariant over histories, reuse of the bump-stack lemmas) + layout correspondence")
 CHECKS["C09"] = dict(
     text="Lean theorems by structural induction over composition expressions of ANY depth (leaf with/without array members, aligned, "
@@ -158,9 +162,11 @@ CHECKS["C08"] = dict(
          "before one (half-open comparison, no adjacency hypothesis); try_deallocate of pools and collections on foreign memory returns false "
          "with the state unchanged and on own memory is exactly deallocate + true; a fallback_allocator of any nesting depth sends every "
          "release to the sub-allocator that served the allocation with the same call shape (corollary of the C09 routing theorem). Tied by "
-         "correspondence of pool/collection traces with foreign pointers in adjacent sibling blocks and of fallback compositions.",
-    note="partial: memory_stack/iteration_allocator composable traits at theorem level only (arena ownership); 'handed out' is approximated by "
-         "'inside a held block' - the library cannot distinguish a live node from a free node of its own block (not claimed by the property).",
+         "correspondence of pool/collection traces with foreign pointers in adjacent sibling blocks, of fallback compositions, and of "
+         "try_deallocate probes on memory_stack / iteration_allocator<1..5> (live memory of every iteration, block boundaries, a sibling stack).",
+    note="partial: 'handed out' is approximated by 'inside a held block' - the library cannot distinguish a live node from a free node of its "
+         "own block (not claimed by the property); memory_stack/iteration_allocator: every live allocation of every block / iteration is "
+         "recognised (theorems over all histories + probes on the real code), zero-sized allocations have no byte to recognise.",
     technique="Lean 4 proof (ownership lemmas + routing induction) + correspondence")
 CHECKS["C13"] = dict(
     text="(1) Translator: the member table of allocator_storage is regenerated on every run from clang's AST (every member function body: "
